@@ -5,6 +5,25 @@ From Outrank Require Import Sketch.CMS.
 Import ListNotations.
 Open Scope Z_scope.
 
+Lemma minl_bounds lo hi l : forall a, lo <= a <= hi -> Forall (fun b => lo <= b <= hi) l -> lo <= minl a l <= hi.
+Proof.
+  induction l as [|b l IH]; intros a Ha Hl; cbn [minl]; [exact Ha|].
+  inversion Hl; subst. apply IH; [lia|assumption].
+Qed.
+Lemma minl_le l : forall a, minl a l <= a /\ Forall (fun b => minl a l <= b) l.
+Proof.
+  induction l as [|b l IH]; intros a; cbn [minl]; [split; [lia|constructor]|].
+  destruct (IH (Z.min a b)) as [H1 H2]. split; [lia|]. constructor; [lia|exact H2].
+Qed.
+Lemma minl_in l : forall a, minl a l = a \/ In (minl a l) l.
+Proof.
+  induction l as [|b l IH]; intros a; cbn [minl]; [now left|].
+  destruct (IH (Z.min a b)) as [H|H].
+  - rewrite H. destruct (Z.min_spec a b) as [[_ E]|[_ E]]; rewrite E; [now left|right; now left].
+  - right. now right.
+Qed.
+
+
 Section P.
   Variables depth width : nat.
   Variable pre : nat -> N -> N.
@@ -192,24 +211,6 @@ Section P.
     - destruct (IH H) as (e' & Hin & Hl). exists e'. split; [now right|exact Hl].
   Qed.
 
-  Lemma minl_bounds lo hi l : forall a, lo <= a <= hi -> Forall (fun b => lo <= b <= hi) l -> lo <= minl a l <= hi.
-  Proof.
-    induction l as [|b l IH]; intros a Ha Hl; cbn [minl]; [exact Ha|].
-    inversion Hl; subst. apply IH; [lia|assumption].
-  Qed.
-  Lemma minl_le l : forall a, minl a l <= a /\ Forall (fun b => minl a l <= b) l.
-  Proof.
-    induction l as [|b l IH]; intros a; cbn [minl]; [split; [lia|constructor]|].
-    destruct (IH (Z.min a b)) as [H1 H2]. split; [lia|]. constructor; [lia|exact H2].
-  Qed.
-  Lemma minl_in l : forall a, minl a l = a \/ In (minl a l) l.
-  Proof.
-    induction l as [|b l IH]; intros a; cbn [minl]; [now left|].
-    destruct (IH (Z.min a b)) as [H|H].
-    - rewrite H. destruct (Z.min_spec a b) as [[_ E]|[_ E]]; rewrite E; [now left|right; now left].
-    - right. now right.
-  Qed.
-
   Lemma probes_bounds ops x : nonneg (flat ops) ->
     Forall (fun b => true_weight x (flat ops) <= b <= total (flat ops)) (probes (run ops) x).
   Proof.
@@ -229,6 +230,7 @@ Section P.
 
   Theorem query_defined M x : (1 <= depth)%nat -> exists q, query M x = Some q.
   Proof.
+    clear width_pos.
     intros Hd. unfold CMS.query, CMS.probes. destruct depth as [|n]; [lia|]. cbn [seq map]. eexists. reflexivity.
   Qed.
 
@@ -236,6 +238,7 @@ Section P.
   Theorem query_is_min M x q : query M x = Some q ->
     In q (probes M x) /\ Forall (fun b => q <= b) (probes M x).
   Proof.
+    clear width_pos.
     unfold CMS.query. destruct (probes M x) as [|a r]; [discriminate|]. intros [= <-].
     destruct (minl_le r a) as [H1 H2]. split.
     - destruct (minl_in r a) as [H|H]; [rewrite H; now left|now right].
@@ -263,6 +266,7 @@ Section P.
 
   Lemma check1_sound items s qs rs : check1 depth items s qs rs = true -> clause1 items s qs rs.
   Proof.
+    clear width_pos.
     unfold check1, clause1. intros H.
     apply andb_prop in H. destruct H as [H H4]. apply andb_prop in H. destruct H as [H H3].
     apply andb_prop in H. destruct H as [H1 H2].
